@@ -20,6 +20,26 @@ def _store_subscripts(calls, f, node, ctxtype=ast.Load):
     return out
 
 
+
+def _sem_clauses(ctx, r, f, clauses, texts, keys):
+    """Common front end of the RefResolver rules: the clauses of sa/rules/ressem.py (the resolver run inside the definitional
+    interpreter against recording handlers) decide when they can; returns True when the rule is thereby finished."""
+    from .ressem import retrieval_eval
+    sem = ctx.extra.get("_ressem")
+    if sem is None and "_ressem" not in ctx.extra:
+        sem = retrieval_eval(ctx.prog)
+        ctx.extra["_ressem"] = sem if sem is not None else False
+    if not sem or "raises" in sem:
+        return False
+    for c in clauses:
+        if sem.get(c, "?") is None:
+            r.ok(site(f) + " [%s]" % c, texts[c])
+        elif c in sem:
+            r.fail("%s|%s" % (f.qual, keys[c]), site(f), sem[c])
+        else:
+            return False
+    return True
+
 def rule_store_first(ctx, rid="R15.1"):
     prog = ctx.prog
     calls = calls_of(prog)
@@ -27,6 +47,10 @@ def rule_store_first(ctx, rid="R15.1"):
     rr = find_method(prog, "validators.RefResolver", "resolve_remote")
     cfg = cfg_of(f)
     r = ctx.rule(rid, "the store is consulted before any retrieval; retrieval happens only when the store lookup failed", floor=2)
+    if _sem_clauses(ctx, r, f, ("store-first", "key"),
+                    {"store-first": "a stored document is used without any retrieval", "key": "a miss retrieves the fragment-free URL once and follows the fragment in the result"},
+                    {"store-first": "retrieval-before-store", "key": "key|url"}):
+        return r
     rcalls = [(n, c) for n in cfg.live for (c, tg) in calls_at(calls, f, n) if any(t.kind == "func" and t.func is rr for t in tg)]
     lookups = [(n, s) for n in cfg.live for s in _store_subscripts(calls, f, n)]
     lookups += [(n, c) for n in cfg.live for (c, tg) in calls_at(calls, f, n)
@@ -84,6 +108,9 @@ def rule_failures_wrapped(ctx, rid="R15.2"):
     rr = find_method(prog, "validators.RefResolver", "resolve_remote")
     cfg = cfg_of(f)
     r = ctx.rule(rid, "any failure of a retrieval surfaces as RefResolutionError", floor=1)
+    if _sem_clauses(ctx, r, f, ("wrapped",), {"wrapped": "KeyError, ValueError, OSError and RuntimeError from a handler all surface as RefResolutionError; nothing is filed"},
+                    {"wrapped": "unwrapped"}):
+        return r
     for n in cfg.live:
         for (c, tg) in calls_at(calls, f, n):
             if not any(t.kind == "func" and t.func is rr for t in tg):
@@ -210,10 +237,30 @@ def registry_snapshot(f, e, depth=0):
     return False
 
 
+def _init_sem(ctx):
+    from .ressem import init_eval
+    if "_initsem" not in ctx.extra:
+        ctx.extra["_initsem"] = init_eval(ctx.prog) or False
+    return ctx.extra["_initsem"]
+
+
 def rule_seeding(ctx, rid="R15.4"):
     prog = ctx.prog
     f = find_method(prog, "validators.RefResolver", "__init__")
     r = ctx.rule(rid, "the store is a URIDict seeded with every registered metaschema, then the caller's store, then the referrer", floor=3)
+    sem = _init_sem(ctx)
+    if sem and "raises" not in sem:
+        # decided by constructing resolvers inside the definitional interpreter, with two registered metaschemas and a caller's
+        # store that has competing entries for a registered id and for the base URI
+        for clause, text in (("seed", "registered metaschemas and the caller's entries are all in the new store (a URIDict)"),
+                             ("seed-order", "caller's entry beats the registry's, the referrer beats both under its base URI")):
+            if sem[clause] is None:
+                r.ok(site(f) + " [%s]" % clause, text)
+            else:
+                r.fail("%s|%s|%s" % (f.qual, clause, "semantic"), site(f), sem[clause])
+        if sem["seed"] is None and sem["seed-order"] is None:
+            r.ok(site(f) + " [second resolver]", "a second resolver starts from the registry alone")
+        return r
     stmts = [n for n in f.body]
     order = []
     for n in stmts:
@@ -372,6 +419,15 @@ def rule_caches(ctx, rid="R15.6"):
     prog = ctx.prog
     f = find_method(prog, "validators.RefResolver", "__init__")
     r = ctx.rule(rid, "default caches are created per resolver, only when none was supplied, and stored on the instance", floor=4)
+    sem = _init_sem(ctx)
+    if sem and "raises" not in sem:
+        if sem["caches"] is None:
+            for what in ("urljoin_cache", "remote_cache"):
+                r.ok(site(f) + " [%s]" % what, "a default per resolver (not shared), bound to this resolver; a supplied one is used as given")
+                r.ok(site(f) + " [self._%s]" % what, "stored on the instance")
+        else:
+            r.fail("%s|default-caches" % f.qual, site(f), sem["caches"])
+        return r
     for pname, fn in (("urljoin_cache", "urljoin"), ("remote_cache", "self.resolve_from_url")):
         ok = False
         for n in f.body:
@@ -399,13 +455,24 @@ def rule_handler_selection(ctx, rid="R15.7"):
     cfg = cfg_of(f)
     r = ctx.rule(rid, "a registered handler for the scheme wins; requests only for http(s); urlopen otherwise", floor=2)
     hn = [n for n in cfg.live for (c, tg) in calls_at(calls, f, n) if any(t.kind == "dynamic" and t.name == "handler" for t in tg)]
-    tests = [(n, "true") for n in cfg.live if n.kind == "test" and isinstance(n.ast, ast.Compare) and isinstance(n.ast.ops[0], ast.In)
+    tests = [(n, "true" if isinstance(n.ast.ops[0], ast.In) else "false") for n in cfg.live
+             if n.kind == "test" and isinstance(n.ast, ast.Compare) and isinstance(n.ast.ops[0], (ast.In, ast.NotIn))
              and isinstance(n.ast.comparators[0], ast.Attribute) and n.ast.comparators[0].attr == "handlers"]
+
+    def builtin_retrieval(c, tg, depth=0):
+        """the call retrieves by itself: urlopen / requests, directly or inside a package helper"""
+        if any(t.kind == "ext" and (t.name.endswith("urlopen") or "requests" in t.name) for t in tg) or "requests.get" in norm(c):
+            return True
+        for t in tg:
+            if t.kind == "func" and t.func is not None and t.func.cls is None and depth < 2:
+                for (_n2, c2, tg2) in calls.calls_in(t.func):
+                    if builtin_retrieval(c2, tg2, depth + 1):
+                        return True
+        return False
     if len(hn) == 1 and tests and only_via_edge(cfg, hn[0], tests, True):
-        # the handler test is the first decision: other retrievals are only on its false edge
-        others = [n for n in cfg.live for (c, tg) in calls_at(calls, f, n)
-                  if any(t.kind == "ext" and (t.name.endswith("urlopen") or "requests" in t.name) for t in tg) or "requests.get" in norm(c)]
-        absent = [(t, "false") for (t, _l) in tests]
+        # the handler test is the first decision: other retrievals are only on its other edge
+        others = [n for n in cfg.live for (c, tg) in calls_at(calls, f, n) if builtin_retrieval(c, tg)]
+        absent = [(t, "false" if l == "true" else "true") for (t, l) in tests]
         if others and all(only_via_edge(cfg, n, absent, True) for n in others):
             r.ok(site(f, hn[0].ast), "handlers[scheme](uri) on the scheme-in-handlers edge; every other retrieval only on the other edge")
         else:
